@@ -27,27 +27,58 @@ pub fn init() {
 pub struct Output {
     pub stdout: Arc<Mutex<Vec<u8>>>,
     pub stderr: Arc<Mutex<Vec<u8>>>,
+    /// number of drain threads started / that have seen end-of-file
+    pub drains: Arc<std::sync::atomic::AtomicUsize>,
+    pub eofs: Arc<std::sync::atomic::AtomicUsize>,
 }
 
 impl Output {
     pub fn stdout_string(&self) -> String {
         String::from_utf8_lossy(&self.stdout.lock().unwrap()).to_string()
     }
+    /// Waits until every pipe has been read to its end (all writers gone: the program has exited and the
+    /// debugger has been dropped), so that what was written is what is reported - however late the
+    /// drain threads are scheduled.  Gives up after `max` (a process left behind keeps the pipe open).
+    pub fn wait_eof(&self, max: std::time::Duration) -> bool {
+        use std::sync::atomic::Ordering::SeqCst;
+        let t0 = std::time::Instant::now();
+        while self.eofs.load(SeqCst) < self.drains.load(SeqCst) {
+            if t0.elapsed() > max {
+                return false;
+            }
+            std::thread::sleep(std::time::Duration::from_millis(5));
+        }
+        true
+    }
+    /// registers one more reader thread; the returned counter is bumped by it at end-of-file
+    pub fn reader_started(&self) -> Arc<std::sync::atomic::AtomicUsize> {
+        self.drains.fetch_add(1, std::sync::atomic::Ordering::SeqCst);
+        self.eofs.clone()
+    }
     pub fn stderr_string(&self) -> String {
         String::from_utf8_lossy(&self.stderr.lock().unwrap()).to_string()
     }
 }
 
-fn drain(mut r: os_pipe::PipeReader, into: Arc<Mutex<Vec<u8>>>) {
+fn drain(mut r: os_pipe::PipeReader, into: Arc<Mutex<Vec<u8>>>, eofs: Arc<std::sync::atomic::AtomicUsize>) {
     std::thread::spawn(move || {
         let mut buf = [0u8; 4096];
         loop {
             match r.read(&mut buf) {
-                Ok(0) | Err(_) => return,
+                Ok(0) | Err(_) => {
+                    eofs.fetch_add(1, std::sync::atomic::Ordering::SeqCst);
+                    return;
+                }
                 Ok(n) => into.lock().unwrap().extend_from_slice(&buf[..n]),
             }
         }
     });
+}
+
+/// drain one more pipe into the captured stdout / stderr of `out`
+pub fn drain_more(r: os_pipe::PipeReader, out: &Output, stderr: bool) {
+    let buf = if stderr { out.stderr.clone() } else { out.stdout.clone() };
+    drain(r, buf, out.reader_started());
 }
 
 /// fork + SIGSTOP + PTRACE_SEIZE (ADDR_NO_RANDOMIZE), like the repository's own tests.
@@ -57,8 +88,8 @@ pub fn spawn(prog: &str, args: &[String]) -> (Child<Installed>, Output) {
     let out = Output::default();
     let (r1, w1) = os_pipe::pipe().unwrap();
     let (r2, w2) = os_pipe::pipe().unwrap();
-    drain(r1, out.stdout.clone());
-    drain(r2, out.stderr.clone());
+    drain(r1, out.stdout.clone(), out.reader_started());
+    drain(r2, out.stderr.clone(), out.reader_started());
     let tpl = Child::new(prog, args.to_vec(), None::<&Path>, w1, w2);
     let child = tpl
         .install()
